@@ -2,7 +2,9 @@ package rewriter
 
 import (
 	"go/ast"
+	"go/types"
 	"log"
+	"strings"
 
 	"github.com/goghcrow/go-ast-matcher"
 	"github.com/goghcrow/go-imports"
@@ -254,13 +256,51 @@ func (o *optimizer) etaReduction() {
 		return true
 	}
 
+	// `fun` replaces the closure, so it must be a value that means the same
+	// when evaluated once at the closure's creation as when evaluated at each call:
+	// a declared function (builtins and conversions are not values, variables may
+	// be reassigned), or a method value on a single-assignment iterator variable
+	// generated by the rewriter (a method value evaluates its receiver early).
+	var stableCallee func(ctx astmatcher.Ctx, fun ast.Expr) bool
+	stableCallee = func(ctx astmatcher.Ctx, fun ast.Expr) bool {
+		switch f := fun.(type) {
+		case *ast.ParenExpr:
+			return stableCallee(ctx, f.X)
+		case *ast.IndexExpr: // instantiation
+			return stableCallee(ctx, f.X)
+		case *ast.IndexListExpr:
+			return stableCallee(ctx, f.X)
+		case *ast.Ident:
+			fn, ok := ctx.ObjectOf(f).(*types.Func)
+			return ok && fn.Type().(*types.Signature).Recv() == nil
+		case *ast.SelectorExpr:
+			fn, ok := ctx.ObjectOf(f.Sel).(*types.Func)
+			if !ok {
+				return false
+			}
+			if fn.Type().(*types.Signature).Recv() == nil {
+				return true // pkg.Func
+			}
+			recv, ok := f.X.(*ast.Ident)
+			return ok && strings.HasPrefix(recv.Name, cstIterVar)
+		}
+		return false
+	}
+	// the closure and its replacement must have the same type, e.g.,
+	// func(x int) any { return f(x) } with f func(int) int can't be reduced
+	sameType := func(ctx astmatcher.Ctx, lit ast.Node, fun ast.Expr) bool {
+		x, y := ctx.TypeOf(lit.(ast.Expr)), ctx.TypeOf(fun)
+		return x != nil && y != nil && types.Identical(x, y)
+	}
+
 	o.m.Match(
 		pattern,
 		func(c *astmatcher.Cursor, ctx astmatcher.Ctx) {
 			params := ctx.Binds["params"].(*ast.FieldList).List
 			args := ctx.Binds["args"].(ExprsNode)
-			if matched(ctx, params, args) {
-				c.Replace(ctx.Binds["fun"])
+			fun := ctx.Binds["fun"].(ast.Expr)
+			if matched(ctx, params, args) && stableCallee(ctx, fun) && sameType(ctx, c.Node(), fun) {
+				c.Replace(fun)
 			}
 		},
 	)
